@@ -653,6 +653,61 @@ func runC14(args []string) error {
 	}
 	dnames = append(dnames, knames...)
 
+	// ---- (b4) lookups through one manager reflect catalogue changes made through another one (another cluster member
+	// on the same metadata store): no table is found after it was deleted elsewhere, a table created elsewhere is found ----
+	{
+		st := newSchedStore()
+		mk := func(id int) *table.Manager {
+			return table.NewManager(nil, nil, &gate{id: id, store: st}, table.Config{NodeID: uint64(id), Table: table.TableConfig{BlockCacheSize: 1024, TableCacheSize: 1024}})
+		}
+		x, y := mk(1), mk(2)
+		// without a NodeHost GetTable cannot build the table's handle (it panics after the record was found): found = no 'not found'
+		found := func(m *table.Manager, name string) (ok bool) {
+			defer func() {
+				if recover() != nil {
+					ok = true
+				}
+			}()
+			_, err := m.GetTable(name)
+			return err == nil
+		}
+		var log []string
+		expect := func(m *table.Manager, who, name string, want bool) {
+			got := found(m, name)
+			log = append(log, fmt.Sprintf("%s.GetTable(%s)=%v", who, name, got))
+			sum.Evaluations++
+			if got != want {
+				sum.violate(0, "a table lookup does not reflect precisely the created-and-not-deleted tables (a change made through another manager is not seen)", map[string]any{"calls": append([]string{}, log...)}, fmt.Sprintf("found=%v, expected %v", got, want))
+			}
+		}
+		for round := 0; round < 3; round++ {
+			n := fmt.Sprintf("t%d", round%2)
+			expect(x, "X", n, false)
+			if _, err := y.VerifCreateTable(n); err != nil {
+				return err
+			}
+			log = append(log, "Y.CreateTable("+n+")")
+			expect(x, "X", n, true)
+			expect(y, "Y", n, true)
+			if err := y.DeleteTable(n); err != nil {
+				return err
+			}
+			log = append(log, "Y.DeleteTable("+n+")")
+			expect(x, "X", n, false)
+			expect(y, "Y", n, false)
+			if _, err := x.VerifCreateTable(n); err != nil {
+				return err
+			}
+			log = append(log, "X.CreateTable("+n+")")
+			expect(y, "Y", n, true)
+			if err := x.DeleteTable(n); err != nil {
+				return err
+			}
+			log = append(log, "X.DeleteTable("+n+")")
+			expect(y, "Y", n, false)
+		}
+	}
+
 	// ---- (c) real Manager on a NodeHost ----
 	if err := c14RealManager(sum); err != nil {
 		return err
